@@ -677,7 +677,7 @@ def main(tier: str) -> int:
         "exact-arithmetic theorems: the rounding error of the streaming recurrences is measured by the Fraction oracle, not bounded by a theorem",
         "int observations beyond 2^53 (where Tally keeps the exact int in min/max) are not generated",
     ])
-    run.assumptions = ["math.sqrt respects equality and is positive on positive arguments (contract on the uninterpreted sqrt of the exact-arithmetic theorems)", "NormalDist.inv_cdf answers on the open unit interval (theorems) / is the table recorded from this run (tie)", "Coq primitive floats and CPython floats agree bit for bit on + - * / sqrt and comparisons", "observations are floats or ints of magnitude <= 2^53 (or rejected inputs)"]
+    run.assumptions = ["math.sqrt respects equality and is positive on positive arguments (contract on the uninterpreted sqrt of the exact-arithmetic theorems)", "NormalDist.inv_cdf answers on the open unit interval (theorems) / is the table recorded from this run (tie)", "Coq primitive floats and CPython floats agree bit for bit on + - * / sqrt and comparisons", "observations are floats or ints of magnitude <= 2^53 (or rejected inputs)", "translated model: self.m() / super().m() resolve statically within the four base classes; float / and math.sqrt raise exactly on a zero divisor / negative argument; int -> float conversion of counters does not overflow (translator/py2gallina_stats.py)"]
     C.use_repo_sources()
     rng = random.Random(run.seed * 104729 + 9)
     quick = tier == "quick"
